@@ -364,6 +364,12 @@ class CompleteStageHandler(
                     and stage.synthetic_stage_owner == SyntheticStageOwner.STAGE_AFTER
                     and not stage.allow_sibling_stages_to_continue_on_failure
                     and stage.parent_stage_id is not None
+                    # the LAST link of a chain of after-stages only: a link with a successor
+                    # (A1 -> A2) takes the regular path below and starts it. Completing the
+                    # parent here leaves A2 NOT_STARTED, determine_status() answers RUNNING
+                    # for the parent, the CompleteStage is dropped as stale and nothing ever
+                    # drives the parent again.
+                    and not self.repository.get_downstream_stages(stage.execution.id, stage.ref_id)
                 ):
                     # Atomic: store stage + propagate failure to parent
                     with self.repository.transaction(self.queue) as txn:
